@@ -11,6 +11,7 @@ struct PipelineCfg
     bool strict = true;
     bool selfLibrary = false; // register the document itself in the importer library under the hrefs it uses
     std::string extraDoc; // a second document registered under the hrefs the first uses (import targets)
+    bool libraryFiles = false; // additionally write the library documents to files and resolve from disk (the importer's own parse path)
     bool skipAnalysis = false;
     bool skipFlatten = false;
 };
